@@ -60,9 +60,11 @@ func (h *Header) ValidateWithContext(ctx context.Context) error {
 				!internal.IsSigned(ctx),
 				validation.Empty,
 			),
+			validation.Each(validation.NotNil),
 			DetectDuplicateStamps,
 		),
 		validation.Field(&h.Links,
+			validation.Each(validation.NotNil),
 			DetectDuplicateLinks,
 		),
 	)
